@@ -200,6 +200,8 @@ def r14_impl_trait_args(sig):
                 depth -= 2
             elif tx == "," and depth == 0:
                 break
+            elif tx == ")":          # `&(impl Tr + ?Sized)`: the bound ends at the enclosing parenthesis
+                break
             e += 1
         bound = sig[toks[found + 1].start:toks[e - 1].end]
         name = "VerifI%d" % hits
